@@ -4,7 +4,7 @@ import common, zoo as zoolib, filelevel, workloads, iocommon
 from common import Pair, proof_stage, rebuild_tools, build_pqh, build_zoo, Lock, TRUSTED_BASE
 
 MODULE = "PQ.Props.C08"
-THEOREMS = ["PQ.C08." + t for t in ("readFull_spec", "readFull_indep", "readFull_sched_indep", "model_read_is_readExactly", "no_single_read_sites", "source_sites_propagate", "source_inventory_covers")]
+THEOREMS = ["PQ.C08." + t for t in ("readFull_spec", "readFull_indep", "readFull_sched_indep", "model_read_is_readExactly", "no_single_read_sites", "source_sites_propagate", "source_inventory_covers", "source_extern_allowed")]
 
 
 def run(chk):
